@@ -15,8 +15,8 @@ def textCovered : List String :=
     | none => false)).map (·.1)
 
 theorem text_covered_types :
-    textCovered = ["A", "AFSDB", "AVC", "CAA", "CDNSKEY", "CDS", "CNAME", "DHCID", "DLV", "DNAME", "DNSKEY", "DS", "EID", "EUI48", "EUI64", "GID", "HINFO", "ISDN", "KEY", "KX", "L64", "LP", "MB", "MD", "MF", "MG",
-      "MINFO", "MR", "MX", "NID", "NIMLOC", "NINFO", "NS", "NSAPPTR", "NSEC3PARAM", "OPENPGPKEY", "PTR", "PX", "RESINFO", "RKEY", "RP", "RT", "SOA", "SPF", "SRV",
+    textCovered = ["A", "AFSDB", "AVC", "CAA", "CDNSKEY", "CDS", "CNAME", "CSYNC", "DHCID", "DLV", "DNAME", "DNSKEY", "DS", "EID", "EUI48", "EUI64", "GID", "HINFO", "ISDN", "KEY", "KX", "L64", "LP", "MB", "MD", "MF", "MG",
+      "MINFO", "MR", "MX", "NID", "NIMLOC", "NINFO", "NS", "NSAPPTR", "NSEC", "NSEC3PARAM", "OPENPGPKEY", "PTR", "PX", "RESINFO", "RKEY", "RP", "RT", "SOA", "SPF", "SRV",
       "SSHFP", "TA", "TALINK", "TLSA", "TXT", "UID", "UINFO", "URI", "X25", "ZONEMD"] := by
   decide
 
@@ -43,6 +43,7 @@ theorem fits_exist (P Q : List TStep) (h : matchPlans P Q = true) : ∃ vals val
     · exact ⟨.n 0, by simp only [FieldWF]; exact Nat.two_pow_pos _⟩
     · exact ⟨.n 0, by simp [FieldWF]⟩
     · exact ⟨.n 0, by simp [FieldWF]⟩
+    · exact ⟨.n 0, by simp only [FieldWF]; exact Nat.two_pow_pos _⟩
     · exact ⟨.s (presentOf []), ⟨[], by decide, rfl⟩⟩
     · rename_i u; cases u <;> simp only [kindEq, Bool.false_eq_true] at hk
       exact ⟨.s [65], ⟨by simp, by decide⟩⟩
@@ -63,6 +64,9 @@ theorem fits_exist (P Q : List TStep) (h : matchPlans P Q = true) : ∃ vals val
   · rename_i p u q u'
     obtain ⟨v, hv⟩ := hfield p q h
     exact ⟨_, _, Fits.lastRest p q v u u' [65] h hv ⟨by simp, by decide⟩⟩
+  · rename_i p q
+    obtain ⟨v, hv⟩ := hfield p q h
+    exact ⟨_, _, Fits.types p q v [1, 255, 65535] h hv (by decide)⟩
   · rename_i p P q Q ih
     simp only [Bool.and_eq_true] at h
     obtain ⟨v, hv⟩ := hfield p q h.1
